@@ -267,13 +267,77 @@ def real_recipes(rng, max_n=None):
     return out
 
 
-def build(spec: dict, *, with_tag: bool = True, source: str = "", comments=None):
-    """Build a swcgeom Tree from a spec (own copies of every array)."""
+def _spec_hash(spec: dict) -> int:
+    import hashlib
+
+    h = hashlib.sha1()
+    for k in ("pid", "x", "r"):
+        if k in spec:
+            h.update(np.ascontiguousarray(spec[k]).tobytes())
+    return int.from_bytes(h.digest()[:8], "little")
+
+
+WARM_STATS = {"strided_layout": 0, "queried_before_use": 0}
+
+
+def warm(tree, h: int = 0xFFFF) -> None:
+    """Read-only queries a caller may well have issued before handing the tree on (a result kept
+    on the tree by one of them and not refreshed later would otherwise stay invisible).  They are
+    not under test here: whatever they raise is ignored."""
+    n = len(tree)
+    qs = [
+        lambda: tree.xyz(), lambda: tree.xyzr(), lambda: tree.xyzw(),
+        lambda: tree.length() if n <= 3000 else None,
+        lambda: tree.get_branches() if n <= 1500 else None,
+        lambda: tree.get_paths() if n <= 300 else None,
+        lambda: tree.get_tips(), lambda: tree.get_furcations() if n <= 3000 else None,
+        lambda: tree.get_segments() if n <= 3000 else None,
+        lambda: [tree.node(k).children() for k in {0, n // 2, n - 1}],
+        lambda: [tree.node(k).xyz() for k in {0, n // 2, n - 1}],
+        lambda: [tree.node(k).is_tip() for k in {0, n - 1}],
+        lambda: tree.node(n - 1).parent(), lambda: tree.node(n // 2).branch() if n <= 1500 else None,
+        lambda: tree.traverse(enter=lambda nd, p: 0) if n <= 20000 else None,
+        lambda: tree.traverse(leave=lambda nd, ch: 0) if n <= 20000 else None,
+        lambda: tree.soma(type_check=False).xyz(), lambda: len(list(tree)) if n <= 3000 else None,
+        lambda: tree.get_adjacency_matrix() if n <= 1500 else None,
+        lambda: tree.number_of_edges(), lambda: tree.shape, lambda: repr(tree),
+        lambda: tree.get_neurites() if n <= 300 else None,
+        lambda: tree.to_swc() if n <= 300 else None,
+    ]
+    for i, q in enumerate(qs):
+        if (h >> (i % 48)) & 1:
+            try:
+                q()
+            except Exception:
+                pass
+    WARM_STATS["queried_before_use"] += 1
+
+
+def build(spec: dict, *, with_tag: bool = True, source: str = "", comments=None,
+          plain: bool = False):
+    """Build a swcgeom Tree from a spec (own copies of every array).
+
+    Deterministically from the spec's content, one tree in four keeps its x/y/z/r columns as
+    strided views into one (n, 4) block (what a caller gets from ``Tree(n, x=xyz[:, 0], ...)``),
+    and every other tree is queried read-only before it is handed on (``warm``)."""
+    import os
+
     from swcgeom.core import Tree
 
     n = len(spec["pid"])
     kw = {k: np.array(v, copy=True) for k, v in spec.items() if with_tag or k != "tag"}
-    return Tree(n, source=source, comments=comments, **kw)
+    plain = plain or bool(os.environ.get("RV_PLAIN_BUILD"))
+    h = _spec_hash(spec)
+    if not plain and h % 4 == 1 and n >= 2 and all(
+            k in kw and kw[k].dtype == np.float32 for k in "xyzr"):
+        block = np.stack([kw[k] for k in "xyzr"], axis=1)  # C order: columns are strided
+        for j, k in enumerate("xyzr"):
+            kw[k] = block[:, j]
+        WARM_STATS["strided_layout"] += 1
+    tree = Tree(n, source=source, comments=comments, **kw)
+    if not plain and (h >> 2) % 2:
+        warm(tree, h >> 3)
+    return tree
 
 
 def random_recipe(rng, *, max_n=40, shapes=None, geoms=None, numbering=None, types=None,
